@@ -81,7 +81,7 @@ pub fn map_expr(e: &mut Expr, f: &mut dyn FnMut(&mut Expr)) {
             map_expr(c, f);
             map_list(args, f);
         }
-        Expr::MethodCall(o, _, args, _) => {
+        Expr::MethodCall(o, _, args, _, _) => {
             map_expr(o, f);
             map_list(args, f);
         }
